@@ -29,8 +29,9 @@ type c16Case struct {
 	Offsets     []int64 `json:"offsets_ns"` // non-decreasing clock readings relative to the epoch
 	Mono        bool    `json:"monotonic"`  // epoch and readings from time.Now() inside a synctest bubble (as main.go does)
 	Wildcard    bool    `json:"wildcard"`
-	TickNS      int64   `json:"tick_ns"` // >0: the injected clock advances by this much on every reading (as a real clock does)
-	Fanout      int     `json:"fanout,omitempty"` // wildcard stanzas expand to this many prefixes / routes (0 = 1)
+	TickNS      int64   `json:"tick_ns"`                               // >0: the injected clock advances by this much on every reading (as a real clock does)
+	Fanout      int     `json:"fanout,omitempty"`                      // wildcard stanzas expand to this many prefixes / routes (0 = 1)
+	KernelDep   bool    `json:"kernel_deprecated_addresses,omitempty"` // some of the interface's addresses carry the kernel's own deprecated flag (that is the address's business: the stanza's deprecated setting alone decides about counting down)
 }
 
 const c16MonoMax = int64(100 * 365 * 24 * time.Hour)
@@ -46,6 +47,11 @@ func c16Build(c c16Case, epoch time.Time, now func() time.Time) (apply func() (c
 		out := []system.IP{{Address: netip.MustParsePrefix("2001:db8:7::1/64")}}
 		for i := 1; i < fan; i++ {
 			out = append(out, system.IP{Address: netip.MustParsePrefix(fmt.Sprintf("2001:db8:7:%x::1/64", i))})
+		}
+		if c.KernelDep {
+			for i := range out {
+				out[i].Deprecated = i%2 == (fan+1)%2
+			}
 		}
 		return out, nil
 	}
@@ -302,6 +308,7 @@ func c16Gen(t *rapid.T) c16Case {
 	if c.Wildcard && rapid.Bool().Draw(t, "fan") {
 		c.Fanout = rapid.SampledFrom([]int{2, 3, 4, 5, 6, 8, 9, 12, 17, 20}).Draw(t, "fanout")
 	}
+	c.KernelDep = c.Wildcard && rapid.Bool().Draw(t, "kerneldep")
 	if !c.Mono && rapid.IntRange(0, 2).Draw(t, "ticking") == 0 {
 		c.TickNS = rapid.SampledFrom([]int64{1, 1000, int64(time.Millisecond), int64(time.Second)}).Draw(t, "tick")
 	}
